@@ -23,7 +23,7 @@ from vlib import common as C
 UNIT = "comp"
 PROPS = "C01compProps"
 PINNED = [
-    "comp_correct_partial",
+    "comp_correct",
     "comp_correct_refuted",
     "comp_expr_context_independent",
     "vm_bytes_refines_instrs",
@@ -458,9 +458,14 @@ class Gen:
         self.assigned = list(range(nvars))      # hold integers (almost always)
         self.bools = [50, 51]
         self.anys = [60]
+        # most programs are well typed throughout; the others mix kinds here and there
+        self.conf = 0 if rng.chance(7, 10) else 30
+
+    def confuse(self):
+        return self.conf > 0 and self.rng.chance(1, self.conf)
 
     def var(self, ty="int"):
-        if self.rng.chance(1, 40):
+        if self.confuse():
             ty = self.rng.choice(["int", "bool", "any"])
         if ty == "bool":
             return self.rng.choice(self.bools)
@@ -470,7 +475,7 @@ class Gen:
 
     def atom(self, ty="any"):
         rng = self.rng
-        if rng.chance(1, 60):
+        if self.confuse():
             ty = rng.choice(["int", "bool", "any", "null"])      # deliberate type confusion
         if ty == "any":
             if rng.chance(1, 3):
@@ -494,7 +499,7 @@ class Gen:
         rng = self.rng
         if d <= 0 or rng.chance(1, 6):
             return self.atom(ty)
-        if rng.chance(1, 50):
+        if self.confuse():
             ty = "any"
         if ty == "any":
             ty = rng.choice(["int", "int", "bool", "logic"])
@@ -502,7 +507,7 @@ class Gen:
         r = rng.below(100)
         if r < 8:
             t = wrap_inline(sub(ty if ty != "logic" else "any"))
-            els = wrap_inline(sub(ty if ty != "logic" else "any")) if rng.chance(3, 4) else None
+            els = wrap_inline(sub(ty if ty != "logic" else "any")) if (ty in ("int", "bool") or rng.chance(3, 4)) else None
             return ["nested", ["if", wrap_inline(sub("bool")), t, [], els]]
         if r < 16 and allow_assign and ty == "int":
             if rng.chance(1, 2):
@@ -540,7 +545,7 @@ class Gen:
         """right-hand side of an assignment: an expression or a block construct"""
         r = self.rng.below(10)
         if r < 6:
-            e = self.expr(d, in_loop, True, "int" if self.rng.chance(5, 6) else "any")
+            e = self.expr(d, in_loop, True, "any" if self.confuse() else "int")
             return e[1] if e[0] == "nested" and e[1][0] in ("if", "assign", "opassign") and self.rng.chance(1, 2) else e
         if r < 8:
             return self.if_stmt(d, in_loop, False)
@@ -559,7 +564,7 @@ class Gen:
         rng = self.rng
         cnt = self.next_cnt
         self.next_cnt += 1
-        limit = 1 + rng.below(4)
+        limit = rng.below(5)          # 0: a conditional loop that never runs (its value is null)
         kind = rng.choice(["while", "until", "loop"])
         body = [["opassign", "+", cnt, ["int", 1]]]
         if kind == "loop" or rng.chance(1, 3):
@@ -584,12 +589,17 @@ class Gen:
             if rng.chance(1, 3):
                 k = self.next_new
                 self.next_new += 1
-                e = ["assign", k, self.rhs(d, in_loop)]
-                self.assigned.append(k)
+                rhs = self.rhs(d, in_loop)
+                e = ["assign", k, rhs]
+                (self.anys if (is_multiline(rhs) or rhs[0] == "if") else self.assigned).append(k)
                 return e
             if rng.chance(1, 6):
                 return ["assign", self.var("bool"), self.expr(d, in_loop, True, "bool")]
-            return ["assign", self.var(), self.rhs(d, in_loop)]
+            rhs = self.rhs(d, in_loop)
+            if is_multiline(rhs) or rhs[0] == "if":
+                # the value of a block / loop can be anything: keep it away from the integer variables
+                return ["assign", self.var("any"), rhs]
+            return ["assign", self.var(), rhs]
         if r < 40:
             return ["opassign", rng.choice(list(AOPS)), self.var(), self.expr(d - 1, in_loop, True, "int")]
         if r < 55 and d > 1:
@@ -600,7 +610,7 @@ class Gen:
             if vb:
                 k = self.next_new
                 self.next_new += 1
-                self.assigned.append(k)
+                self.anys.append(k)
                 return ["assign", k, lp]
             return lp
         if r < 75 and in_loop and allow_esc:
@@ -731,7 +741,7 @@ def evaluate(chk, cases, tag):
         else:
             terms.append(f"case_out {coq_program(p)} [] []")
     try:
-        vals = C.coq_eval(UNIT, HEADER, terms, tag="c01comp-" + tag, per_shard=250)
+        vals = C.coq_eval(UNIT, HEADER, terms, tag="c01comp-" + tag, per_shard=150)
     except RuntimeError as e:
         chk.log(str(e)[-3000:])
         chk.oblige("corr:model evaluates (coq_eval)", False, str(e)[-500:])
@@ -837,14 +847,17 @@ def run_component(chk, tier, seed):
     rng = C.Rng(seed)
     cases = load_corpus()
     cases += gen_exhaustive(tier, rng)
-    cases += gen_random(tier, rng, 1500 if tier == "quick" else 30000)
+    cases += gen_random(tier, rng, 1000 if tier == "quick" else 30000)
     if not model_ok:
         chk.oblige("comp corr:model available", False)
         return {"cases": 0}
+    t_eval = __import__("time").time()
     res = evaluate(chk, cases, tier)
+    chk.log(f"comp: tie evaluation {__import__('time').time() - t_eval:.1f}s for {len(cases)} programs")
     if res is None:
         return {"cases": 0}
     dist = {}
+    outcomes = {}
     fails = {"parse": [], "a": [], "b": [], "c": [], "outside": []}
     known_hits = 0
     in_known = 0
@@ -853,6 +866,10 @@ def run_component(chk, tier, seed):
     loops = 0
     for d in res:
         dist[d["origin"]] = dist.get(d["origin"], 0) + 1
+        rr = d["real"].get("result", "compile-error")
+        cls = "value" if rr[:1] in ("n", "t", "f", "i") else rr
+        key = d["origin"] + ":" + cls
+        outcomes[key] = outcomes.get(key, 0) + 1
         for kind, msg in d["fail"]:
             fails[kind].append((d, msg))
         if d.get("known_hit"):
@@ -903,7 +920,7 @@ def run_component(chk, tier, seed):
                 "note": "the model the theorems are about no longer matches the implementation"},
                 no_input=(not fails["c"]))
             chk.log(f"comp: {len(fails[kind])} failures of tie ({kind}); smallest:\n" + d["src"] + "  " + msg)
-    info = {"cases": len(res), "distribution": dist, "in_known_class": in_known, "known_deviations": known_hits,
+    info = {"cases": len(res), "distribution": dist, "outcomes": outcomes, "in_known_class": in_known, "known_deviations": known_hits,
             "outside_wf0": outside_wf, "timeouts": timeouts, "axioms": axioms}
     chk.coverage.setdefault("components", {})["comp"] = info
     return info
